@@ -12,6 +12,8 @@ def dump_table():
 
 
 def tla_str(s):
+    # TLC narrows characters of string literals to bytes, so non-ASCII text is written as {uXXXX}; nv.tlc undoes it
+    s = "".join(c if ord(c) < 128 else "{u%04x}" % ord(c) for c in s)
     return '"' + s.replace("\\", "\\\\").replace('"', '\\"') + '"'
 
 
